@@ -14,7 +14,7 @@ fields("DemeTree", metaepoch_count="int", config="ref:TreeConfig", _gsc="ref:$GS
 fields("TreeConfig", levels="list[ref:BaseLevelConfig]", gsc="ref:$GSC", sprout_mechanism="ref:SproutMechanism",
        options="rec", config_class_to_deme_class="ref:$ClassMap")
 fields("BaseLevelConfig", problem="ref:Problem", lsc="ref:$LSC")
-fields("$rec", hibernation="bool", random_seed="oint", log_level="ref:$LogLevel")
+fields("$rec", hibernation="bool", random_seed="oint", log_level="ref:$LogLevel", maxiter="int")
 fields("LocalDeme", _n_evals="int", _method="str", _run_history="list[ref:Individual]", _options="rec")
 fields("DemeCandidates", individuals="list[ref:Individual]", features="ref:DemeFeatures")
 fields("DemeFeatures", nbc_mean_distance="fl")
